@@ -302,6 +302,36 @@ pub fn run(ctx: &Ctx, replay: Option<&J>) -> i32 {
             }
         }
     }
+    // ---- the same chain through an --output file that already holds a longer document from an earlier
+    // run (the environment's answer for the state of the path), read back on stdin
+    {
+        let subset: Vec<&String> = docs.iter().filter(|d| d.len() < 400 && !d.contains("e400")).step_by(if thorough { 5 } else { 25 }).collect();
+        let outs: Vec<(String, String, String)> = par_map(&subset, |doc| {
+            let path = crate::proc::scratch_file("c06-out");
+            let _ = std::fs::write(&path, format!("{{\"x\": \"{}\"}}\n", "an earlier, longer document ".repeat(40)));
+            let r1 = run_blots(&["output x = inputs.x".into(), "-i".into(), (*doc).clone(), "-o".into(), path.clone()], None, None);
+            let written = std::fs::read(&path).unwrap_or_default();
+            let r2 = run_blots(&["output x = inputs.x".into()], Some(&written), None);
+            let _ = std::fs::remove_file(&path);
+            let direct = run_blots(&["output x = inputs.x".into(), "-i".into(), (*doc).clone()], None, None);
+            (format!("{:?}/{:?}", r1.code, r2.code), r2.stdout.trim().to_string(), direct.stdout.trim().to_string())
+        });
+        for (doc, (codes, via_file, direct)) in subset.iter().zip(outs.iter()) {
+            ctx.count(3);
+            ctx.outcome("cli-output-file-chain");
+            // whatever the direct run prints (success or not), the run through the file must print the same
+            if via_file != direct {
+                ctx.violation(Violation {
+                    kind: "cli-output-file-chain".into(),
+                    class: "cli".into(),
+                    input: (*doc).clone(),
+                    expected: truncate(direct, 200),
+                    observed: format!("{} (exit codes {})", truncate(via_file, 200), codes),
+                    case: json!({"doc": doc}),
+                });
+            }
+        }
+    }
     let mut requests = vec![];
     let mut req_docs = vec![];
     for (doc, (err, res)) in docs.iter().zip(results.iter()) {
@@ -368,7 +398,7 @@ pub fn run(ctx: &Ctx, replay: Option<&J>) -> i32 {
     finish(
         ctx,
         "exploration",
-        "direction 1: every leaf (grid spread of finite doubles incl. -0, 5e-324, f64::MAX, 2^53+1; every string of length <= 2/3 over the 24-code-point alphabet plus BOM / surrogate-boundary / escape-looking strings; booleans, null), each leaf in a list and under every key of a 39-key pool (empty, numeric-looking, composed/decomposed, trailing NUL, quotes, __proto__), every ordered key pair, leaf pairs, depth-3/4 nestings and depth-6 spines: value -> from_value -> to_json -> text -> from_json -> to_value, compared by .== in one heap and structurally by bits / code points; direction 2: documents (number spellings incl. 17+ digits, exponents, > 2^64 integers; escapes; nested, duplicate keys; every string of length <= 3/4 over JSON's own punctuation as value and key) through the real `blots 'output x = inputs.x' -i doc` and a second process reading the first one's stdout, compared by an independent JSON oracle; stdin read boundaries: 70/140 KB documents (string, key, list of strings) of 2-, 3- and 4-byte characters at every phase relative to every power-of-two offset, and a short document delivered 1, 2 and 3 bytes at a time; distinct = distinct values / documents",
+        "direction 1: every leaf (grid spread of finite doubles incl. -0, 5e-324, f64::MAX, 2^53+1; every string of length <= 2/3 over the 24-code-point alphabet plus BOM / surrogate-boundary / escape-looking strings; booleans, null), each leaf in a list and under every key of a 39-key pool (empty, numeric-looking, composed/decomposed, trailing NUL, quotes, __proto__), every ordered key pair, leaf pairs, depth-3/4 nestings and depth-6 spines: value -> from_value -> to_json -> text -> from_json -> to_value, compared by .== in one heap and structurally by bits / code points; direction 2: documents (number spellings incl. 17+ digits, exponents, > 2^64 integers; escapes; nested, duplicate keys; every string of length <= 3/4 over JSON's own punctuation as value and key) through the real `blots 'output x = inputs.x' -i doc` and a second process reading the first one's stdout, compared by an independent JSON oracle; an --output file that already holds a longer document, read back on stdin (a spread of the documents); stdin read boundaries: 70/140 KB documents (string, key, list of strings) of 2-, 3- and 4-byte characters at every phase relative to every power-of-two offset, and a short document delivered 1, 2 and 3 bytes at a time; distinct = distinct values / documents",
         true,
         None,
     )
